@@ -294,6 +294,31 @@ def run_shard(spec, tier, seed):
                                           {"cell": f"{R.sysname(vsys)}|{R.sysname(ts)}", "a": a_l.describe(), "booster": q_l.describe(),
                                            "gamma": mpmath.nstr(gam, 17), "difference_in_roundings_of_gamma_x_unit": mpmath.nstr(err, 6)})
                         res.cell(f"{gen_name}(4D booster) is {exp_name} at any gamma", R.sysname(vsys), R.sysname(ts), mode.name)
+                # the same for a 3-D velocity close to the light cone
+                bmag = mpmath.sqrt(1 - 1 / (g * g))
+                for s3 in (R.SYSTEMS[3][(di + k_) % len(R.SYSTEMS[3])],):
+                    try:
+                        v_l = mk(R.RV(d3.x * bmag / d3.mag, d3.y * bmag / d3.mag, d3.z * bmag / d3.mag), s3, k_ == 1)
+                    except R.NotRepresentable:
+                        continue
+                    eb = mode.exact(v_l)
+                    if not eb.mag2 < 1:
+                        continue
+                    gam3 = 1 / mpmath.sqrt(1 - eb.mag2)
+                    Vb = mode.vec(v_l)
+                    for gen_name, exp_name in (("boost", "boost_beta3"), ("boostCM_of", "boostCM_of_beta3")):
+                        try:
+                            g1, _ = L.rv_of(getattr(A, gen_name)(Vb))
+                            g2, _ = L.rv_of(getattr(A, exp_name)(Vb))
+                        except R.NotRepresentable:
+                            continue
+                        res.evaluations += 1
+                        err = max(abs(p_ - q_) for p_, q_ in zip(g1.comps(), g2.comps())) / (gam3 * L.maxabs(ea) * eps)
+                        if not err <= 64:
+                            res.violation(f"C09/law-broken law={gen_name}(3D velocity) is {exp_name} backend={mode.name}",
+                                          {"cell": f"{R.sysname(vsys)}|{R.sysname(s3)}", "a": a_l.describe(), "velocity": v_l.describe(),
+                                           "gamma": mpmath.nstr(gam3, 17), "difference_in_roundings_of_gamma_x_unit": mpmath.nstr(err, 6)})
+                        res.cell(f"{gen_name}(3D velocity) is {exp_name} at any gamma", R.sysname(vsys), R.sysname(s3), mode.name)
         if di == 0:
             res.sample({"vector": a_l.describe(), "second": b_l.describe(), "mode": mode.name, "label": alab,
                         "laws_checked_so_far": res.evaluations})
